@@ -189,7 +189,8 @@ def execute(env, tree, tokens, kind, ansi_streams, reuse=None):
         def tap(app, args, i, o, e):
             io = orig(app, args, i, o, e)
             taps.append(dict(verbosity=io.verbosity, quiet=io.is_quiet(), interactive=io.is_interactive(), ansi_out=io.output.supports_ansi(),
-                             ansi_err=io.error_output.supports_ansi(), quiet_err=io.error_output.is_quiet(), verbosity_err=io.error_output.verbosity))
+                             ansi_err=io.error_output.supports_ansi(), quiet_err=io.error_output.is_quiet(), verbosity_err=io.error_output.verbosity,
+                             levels=[(o.is_verbose(), o.is_very_verbose(), o.is_debug()) for o in (io, io.output, io.error_output)]))
             return io
         cfg.set_io_factory(tap)
 
@@ -260,6 +261,10 @@ def judge_variant(sh, env, tree, path, names, base, switches, tokens, positions,
     for v, lvl in VERB.items():
         if v in names_set and (tap["verbosity"] != lvl or tap["verbosity_err"] != lvl):
             sh.violate("verbosity", record, "%s given, I/O verbosity %r/%r" % (v, tap["verbosity"], tap["verbosity_err"]))
+    # what a handler asks (is_verbose / is_very_verbose / is_debug on the I/O and on both outputs) follows the selected level
+    want_levels = (tap["verbosity"] >= 1, tap["verbosity"] >= 2, tap["verbosity"] >= 4)
+    if any(tuple(l) != want_levels for l in tap["levels"]):
+        sh.violate("verbosity", record, "at verbosity %r the predicates (is_verbose, is_very_verbose, is_debug) of I/O, output, error output answer %r" % (tap["verbosity"], tap["levels"]))
     if not (names_set & set(VERB)) and tap["verbosity"] != 0:
         sh.violate("verbosity", record, "no verbosity switch given, I/O verbosity %r" % tap["verbosity"])
     if "noansi" in names_set:
